@@ -539,3 +539,7 @@ def run(ctx):
     check_siblings(ctx, prog)
     check_abuf(ctx, prog)
     check_combiners(ctx)
+    from rules import r10sentinel
+    ctx.rule("R10.sentinel", "index fields that use -1 for \"none\" (the attached-buffer slot of a request among them) are compared "
+             "with constants only in ways that tell -1 from the valid index 0")
+    r10sentinel.check(ctx, ctx.program(groups=["lib"]), "R10.sentinel", 4)
